@@ -185,6 +185,43 @@ func c03Monitor(b *bridgeHist) {
 	}
 }
 
+// mineMalformedV1 mines version-1 style transactions whose data output is missing, misplaced or carries
+// another magic prefix; they pay the relayer key hash but must never be credited.
+func (b *bridgeHist) mineMalformedV1() {
+	key := b.keys[0]
+	if _, isSchnorr := key.Key.(*relayertypes.PublicKey_Schnorr); isSchnorr {
+		return
+	}
+	r := b.lh.r
+	evm := b.newEvm()
+	sc := expectedDepositScripts(key, evm, b.magic, 1)
+	other := expectedDepositScripts(key, evm, []byte("XXX0"), 1)
+	filler := world.P2WPKHScript(world.Derive(3, "fill", r.Intn(100))[:20])
+	layouts := [][]*wireTxOut{
+		{wireOut(50_000, sc[0])}, // data output missing
+		{wireOut(50_000, sc[0]), wireOut(700, filler), wireOut(0, sc[1])}, // data output third
+		{wireOut(0, sc[1]), wireOut(50_000, sc[0])},                       // data output first
+		{wireOut(50_000, sc[0]), wireOut(0, other[1])},                    // another magic
+		{wireOut(50_000, sc[0]), wireOut(0, sc[1][:len(sc[1])-1])},        // data one byte short
+	}
+	var txs []*wireMsgTx
+	txs = append(txs, b.bc.CoinbaseTx(b.bc.Tip+1))
+	idxs := []int{}
+	for _, l := range layouts {
+		idxs = append(idxs, len(txs))
+		txs = append(txs, b.bc.FillerTx(l...))
+	}
+	blk := b.bc.Mine(txs)
+	for k, i := range idxs {
+		vout := uint32(0)
+		if k == 2 {
+			vout = 1
+		}
+		d := &depTruth{Block: blk, Index: i, Raw: blk.Raw[i], Txid: blk.Txids[i], Vout: vout, Value: 50_000, Version: 1, Key: key, Evm: evm, Malformed: true}
+		b.malformed = append(b.malformed, d)
+	}
+}
+
 // c03Gen queues one block's worth of Bitcoin activity, votes and deposit submissions.
 func c03Gen(b *bridgeHist, blk int, muts []depMutator) {
 	lh := b.lh
@@ -203,6 +240,8 @@ func c03Gen(b *bridgeHist, blk int, muts []depMutator) {
 	}
 	// Bitcoin side
 	switch {
+	case blk%9 == 7 && len(b.malformed) < 10:
+		b.mineMalformedV1()
 	case blk%9 == 4:
 		if b.depositBurst && r.Intn(2) == 0 {
 			b.mineDeposits(9+r.Intn(7), false)
@@ -281,6 +320,13 @@ func c03Gen(b *bridgeHist, blk int, muts []depMutator) {
 		case x == 9 && len(unvoted) > 0: // block not voted yet
 			t := unvoted[r.Intn(len(unvoted))]
 			b.ops = append(b.ops, b.depositsOp([]*bitcointypes.Deposit{b.genuineDeposit(t)}, hdrsFor([]*depTruth{t}), "block-not-voted", false))
+		}
+	}
+	// version-1 look-alikes with a missing / misplaced / foreign data output
+	for _, t := range b.malformed {
+		if t.Block.Height <= b.votedTip && t.Attempts < 2 && r.Intn(3) == 0 {
+			t.Attempts++
+			b.ops = append(b.ops, b.depositsOp([]*bitcointypes.Deposit{b.genuineDeposit(t)}, hdrsFor([]*depTruth{t}), "malformed-v1-layout", false))
 		}
 	}
 	// coinbase deposits: under position 0 and under aliased positions, before and after maturity
